@@ -1,5 +1,6 @@
 (** C13, end to end: the whole pipeline (Interp/Run.v [run_src], the concrete library and catalogue)
     on a source and on an edited source; and the line terminators. *)
+From RS Require Import Proofs.BytesLemmas.
 From RS Require Import Base.Bytes Base.Outcome Base.Utf8 Bind.Types Pkt.Packet Pkt.Pcap
   Lex.Tokens Lex.Scanner Parse.Automaton Interp.Val Interp.Ast Interp.Eval Interp.Cli Interp.Run
   Lib.LibBase Lib.StdLib.
@@ -41,9 +42,9 @@ Proof.
   destruct (process_file _ _ _ _ src) as [p|e l p|s]; destruct (process_file _ _ _ _ src') as [p'|e' l' p'|s'];
     cbn [cli_norm]; intros H; try discriminate; cbn [run_same].
   - assert (N : norm p = norm p') by congruence. destruct (norm_fields _ _ N) as (O & T & W & _).
-    unfold pcap_of. rewrite O, T, !rev_length. auto.
+    unfold pcap_of. rewrite !frev_rev, O, T, !rev_length. auto.
   - assert (N : norm p = norm p') by congruence. destruct (norm_fields _ _ N) as (O & _).
-    unfold pcap_of. rewrite O. split; congruence.
+    unfold pcap_of. rewrite !frev_rev, O. split; congruence.
   - congruence.
 Qed.
 
